@@ -194,11 +194,16 @@ class PathTable:
                     vals = [T.tr(x) for x in st.value.elts]
                 elif isinstance(v, sp.Tuple) and len(v) == len(t.elts):
                     vals = list(v)
+                elif comp_element(v, 0) is not None:
+                    # a, b, c = (f(x) for x in S): the i-th element of a map is the map of the i-th element
+                    vals = [comp_element(v, i) for i in range(len(t.elts))]
                 else:
                     vals = [sp.Function("getitem")(v, sp.Integer(i)) for i in range(len(t.elts))]
                 for e, vv in zip(t.elts, vals):
                     if isinstance(e, ast.Name):
                         l.env[e.id] = vv
+                    elif isinstance(e, (ast.Attribute, ast.Subscript)):
+                        l.events.append(("store", unparse(e), vv, st))
             else:
                 l.events.append(("store", unparse(t), v, st))
                 if isinstance(t, ast.Subscript):
@@ -309,6 +314,21 @@ class PathTable:
                 out = fin
             return out
         raise AnalysisError(f"decision table: unsupported statement {type(st).__name__}")
+
+
+def comp_element(v, i: int):
+    """i-th element of `comp(body, gen(var, seq))` (one generator, no filter): body with var := seq[i]; else None."""
+    if getattr(getattr(v, "func", None), "__name__", "") in ("list", "tuple") and len(v.args) == 1:
+        v = v.args[0]
+    if getattr(getattr(v, "func", None), "__name__", "") != "comp" or len(v.args) != 2:
+        return None
+    g = v.args[1]
+    if getattr(getattr(g, "func", None), "__name__", "") != "gen" or len(g.args) != 2:
+        return None
+    var, seq = g.args
+    if isinstance(seq, sp.Tuple):
+        return v.args[0].subs(var, seq[i]) if i < len(seq) else None
+    return v.args[0].subs(var, sp.Function("getitem")(seq, sp.Integer(i)))
 
 
 MUTATORS = {"append", "extend", "insert", "update", "pop", "remove", "clear", "sort", "reverse", "add", "setdefault", "fill", "resize"}
@@ -473,13 +493,22 @@ def holds(lit, assign) -> Optional[bool]:
                 r = item in list(cont)
                 return r if isinstance(lit, sp.Eq) else not r
             return None
+        if b == sp.true and getattr(a, "func", None) == sp.Function("truth") and getattr(getattr(a.args[0], "func", None), "__name__", "") == "isinstance":
+            obj, cls_ = a.args[0].args
+            key = sp.Function("type_of")(obj)
+            if key in assign:
+                names = [c.name for c in (list(cls_) if isinstance(cls_, sp.Tuple) else [cls_]) if getattr(c, "is_Symbol", False)]
+                r = assign[key].name in names
+                return r if isinstance(lit, sp.Eq) else not r
+            return None
         if b == sp.true and getattr(a, "func", None) == sp.Function("truth"):
             inner = a.args[0]
             if isinstance(inner, (sp.Eq, sp.Ne)) or inner in (sp.true, sp.false):
                 r = holds(inner, assign) if inner not in (sp.true, sp.false) else bool(inner)
                 return None if r is None else (r if isinstance(lit, sp.Eq) else not r)
             return None
-        if a.is_Symbol and b.is_Symbol and a.name.startswith("'") and b.name.startswith("'"):
+        lit_like = lambda x: x.is_Symbol and (x.name.startswith("'") or x.name == "None")   # noqa: E731
+        if lit_like(a) and lit_like(b):
             r = a == b
             return r if isinstance(lit, sp.Eq) else not r
         return None
@@ -497,6 +526,24 @@ def holds(lit, assign) -> Optional[bool]:
     return None
 
 
+
+
+def pick(value, assign):
+    """A Piecewise value under a finite assignment: the first piece whose condition holds (None when undecided)."""
+    if not isinstance(value, sp.Piecewise):
+        return value
+    for e, c in value.args:
+        v = True if c == sp.true else holds(c, assign)
+        if v is None:
+            return None
+        if v:
+            return pick(e, assign)
+    return None
+
+
+def consistent(leaf: "Leaf", assign) -> bool:
+    """False when some condition of the path is false under the assignment (undecided conditions do not exclude)."""
+    return not any(holds(x, assign) is False for x in literals(leaf))
 
 
 def literals_of(leaf: Leaf, nodes) -> List[sp.Expr]:
